@@ -174,7 +174,7 @@ static int at_idx;
 static void at_exec(int idx) {
     /* called by librec at the real-exec instant */
     struct rec_call *c = &rc->calls[idx < REC_MAX_CALLS ? idx : REC_MAX_CALLS - 1];
-    if (cur.quiet) return;
+    if (cur.quiet) return;                      /* quiet 1: nothing is emitted; quiet 2: only pre/ret, nothing inside the call window */
     int was_tracking = rc->track; rc->track = 0;
     int path_ptr = (const unsigned char *) c->path == cur.path;
     int argv_ptr = (char **) c->argv == cur.argv;
@@ -196,7 +196,7 @@ static void do_call(const char *kind) {
     free(cur.s_path); cur.s_path = cur.path ? (unsigned char *) strdup((char *) cur.path) : NULL;
     cur.s_argv = dupvec(cur.argv, cur.argc); cur.s_envp = dupvec(cur.envp, cur.envc);
     uint64_t envsum0 = vec_sum(environ); char **env0 = environ;
-    if (!cur.quiet) {
+    if (cur.quiet != 1) {
         opf("{\"ev\":\"pre\",\"label\":\"%s\",", cur.label);
         if (cur.want_snap) { snapshot("snap"); opf(","); }
         drain_all("sinks"); opf("}\n"); oflush();
@@ -205,13 +205,15 @@ static void do_call(const char *kind) {
     long long t0 = now_us();
     errno = 0;
     int r;
+    if (getenv("XDRV_MARK")) { if (write(-1, "XDRV-ENTER", 10) < 0) {} }       /* markers for syscall-level tracers (C03) */
     rc->track = 1;
     if (strcmp(kind, "execv") == 0) r = execv((char *) cur.path, cur.argv);
     else r = execve((char *) cur.path, cur.argv, cur.envp);
     int e = errno;
     rc->track = 0;
+    if (getenv("XDRV_MARK")) { if (write(-1, "XDRV-LEAVE", 10) < 0) {} errno = e; }
     long long t1 = now_us();
-    if (!cur.quiet) {
+    if (cur.quiet != 1) {
         int intact = (cur.path && cur.s_path ? strcmp((char *) cur.path, (char *) cur.s_path) == 0 : cur.path == cur.s_path) && veceq(cur.argv, cur.s_argv) && veceq(cur.envp, cur.s_envp);
         opf("{\"ev\":\"ret\",\"label\":\"%s\",\"kind\":\"%s\",\"n_real\":%d,\"ret\":%d,\"errno\":%d,\"inputs_intact\":%d,\"environ_same\":%d,\"us\":%lld,\"signals\":%d,\"lastsig\":%d,",
             cur.label, kind, (int) rc->ncalls, r, e, intact, (environ == env0 && vec_sum(environ) == envsum0), t1 - t0, (int) sigcount, lastsig);
@@ -309,7 +311,7 @@ static size_t run_line(size_t pc, int in_child, int *stop) {
     } else if (!strcmp(c, "umask")) { umask((mode_t) strtol(tok[1], NULL, 8));
     } else if (!strcmp(c, "name")) { unsigned char *a = unhex(tok[1], &n); prctl(PR_SET_NAME, a); free(a);
     } else if (!strcmp(c, "sigblock")) { sigset_t s; sigemptyset(&s); sigaddset(&s, atoi(tok[1])); sigprocmask(SIG_BLOCK, &s, NULL);
-    } else if (!strcmp(c, "sighandlers")) { for (int s = 1; s < 32; s++) if (s != SIGKILL && s != SIGSTOP && s != SIGCHLD) signal(s, onsig);
+    } else if (!strcmp(c, "sighandlers")) { for (int s = 1; s < 32; s++) if (s != SIGKILL && s != SIGSTOP && s != SIGCHLD && s != SIGSEGV && s != SIGBUS && s != SIGILL && s != SIGFPE && s != SIGABRT) signal(s, onsig);
     } else if (!strcmp(c, "path")) { free(cur.path); cur.path = unhex(tok[1], &n);
     } else if (!strcmp(c, "argv") || !strcmp(c, "envp")) {
         char ***v = !strcmp(c, "argv") ? &cur.argv : &cur.envp; size_t *cnt = !strcmp(c, "argv") ? &cur.argc : &cur.envc;
